@@ -310,6 +310,7 @@ func (e *engine) onEvent(ev verifvfs.Event) {
 		return
 	}
 	listPath := filepath.Join(e.dir, "tables.list")
+	_ = listPath
 	switch ev.Op {
 	case "openfile", "tempfile", "create":
 		path := ev.Paths[0]
@@ -348,13 +349,7 @@ func (e *engine) onEvent(ev verifvfs.Event) {
 				}
 			}
 		}
-		if ev.Op == "rename" && ev.OK && ev.Paths[1] == listPath {
-			e.onListChange(ev)
-		}
-		if ev.OK && ev.Paths[0] == listPath {
-			// tables.list itself was unlinked or moved away: the committed state is now "no tables"
-			e.onListChange(ev)
-		}
+
 		if ev.Op == "rename" && ev.OK && isLock(ev.Paths[1]) {
 			e.lockOwner[ev.Paths[1]] = p
 		}
@@ -363,8 +358,13 @@ func (e *engine) onEvent(ev verifvfs.Event) {
 			e.lastListRead[p] = ReadList(e.dir)
 		}
 	}
+	// The committed state is whatever tables.list says NOW, however it got there (rename of
+	// the lock file, unlink, truncation, a write in place): compare after every operation.
+	names := ReadList(e.dir)
+	if fmt.Sprint(names) != fmt.Sprint(e.versions[len(e.versions)-1].names) {
+		e.onListChange(ev)
+	}
 	if e.mon.M5 {
-		names := ReadList(e.dir)
 		if err := e.checkList(names, fmt.Sprintf("after step %d (%v)", ev.Step, ev)); err != nil {
 			e.fail(annotate(err, e.tail(14)))
 		}
